@@ -1,6 +1,7 @@
 package main
 
 import (
+	"sort"
 	"fmt"
 	"go/constant"
 	"go/types"
@@ -64,14 +65,19 @@ func (g *Gen) instOne(ff *forallFact, t string) {
 	if ff.done == nil {
 		ff.done = map[string]bool{}
 	}
+	okey := fmt.Sprintf("ff%p|%s", ff, t)
 	if ff.done[t] {
+		g.s.hit(okey)
 		return
 	}
 	ff.done[t] = true
+	start := len(g.s.lines)
+	g.s.rec(okey, start) // (re-entrancy: an empty range until the instance is complete)
 	g.instGen++
 	body := ff.inst(t)
 	g.instGen--
 	g.s.assumeUnder(ff.guard, imp(ff.outer, body))
+	g.s.rec(okey, start)
 }
 
 // addInstTermGen adds a term produced while translating contracts; terms produced by
@@ -361,7 +367,11 @@ func (e *Env) index(b, i CV) CV {
 		arr := g.readHeap(e.st, h, "(ptr "+b.S+")")
 		if g.s.noDef == 0 {
 			// positions a contract reads are also positions the remembered universal facts are used at
-			g.addInstTermGen("Int", "(+ (off "+b.S+") "+i.S+")")
+			if g.instGen == 0 {
+				// (the absolute position only for reads of the contract text itself, not for
+				// positions reached by instantiating a universal fact)
+				g.addInstTermGen("Int", "(+ (off "+b.S+") "+i.S+")")
+			}
 			g.addInstTermGen("Int", i.S)
 		}
 		v := T{"(select " + arr + " (+ (off " + b.S + ") " + i.S + "))", g.sortOf(u.Elem())}
@@ -564,12 +574,16 @@ func (e *Env) memTerm(s CV, n, k string) string {
 	cur := n
 	for d := 0; d < 2; d++ {
 		key := arr + "|" + o + "|" + cur + "|" + k
+		prev := "(- " + cur + " 1)"
 		if g.memSeen[key] {
-			break
+			g.s.hit("mem|" + key)
+			cur = prev
+			continue
 		}
 		g.memSeen[key] = true
-		prev := "(- " + cur + " 1)"
+		start := len(g.s.lines)
 		g.s.assume(eq(app("mem", arr, o, cur, k), and("(> "+cur+" 0)", or(app("mem", arr, o, prev, k), eq("(val (select "+arr+" (+ "+o+" "+prev+")))", k)))))
+		g.s.rec("mem|"+key, start)
 		cur = prev
 	}
 	return t
@@ -1062,8 +1076,34 @@ func (e *Env) boundedExists(x *CE, pos bool) (CV, bool) {
 	}
 	snap := *e
 	snap.st = e.st.clone()
-	body := func(t string) string {
-		en := snap.with(map[string]CV{iv: {T{t, "Int"}, nil}})
+	// free variables of P (contract / define parameters other than the bound index) become
+	// arguments of the named predicate, so that instances at different argument values are
+	// instances of one predicate
+	var fvs []string
+	seenFv := map[string]bool{}
+	var walk func(c *CE)
+	walk = func(c *CE) {
+		if c == nil {
+			return
+		}
+		if c.Op == "ident" && c.Name != iv && !seenFv[c.Name] {
+			if v, ok := e.vars[c.Name]; ok && (v.So == "Int" || v.So == "B" || v.So == "Bool" || v.So == "NB" || v.So == "Any" || v.So == "Slc") {
+				seenFv[c.Name] = true
+				fvs = append(fvs, c.Name)
+			}
+		}
+		for _, a := range c.Args {
+			walk(a)
+		}
+	}
+	walk(rest)
+	sort.Strings(fvs)
+	bodyAt := func(t string, fv map[string]CV) string {
+		m := map[string]CV{iv: {T{t, "Int"}, nil}}
+		for k, v := range fv {
+			m[k] = v
+		}
+		en := snap.with(m)
 		en.noQuant = true
 		g.s.noDef++
 		r := en.tr(rest, pos)
@@ -1071,21 +1111,41 @@ func (e *Env) boundedExists(x *CE, pos bool) (CV, bool) {
 		e.want(r, "Bool", rest)
 		return r.S
 	}
+	body := func(t string) string { return bodyAt(t, nil) }
 	probe := g.s.decl("exq", "Int")
-	canon := strings.ReplaceAll(body(probe.S), probe.S, "?")
+	probes := map[string]CV{}
+	var argSorts, argTerms []string
+	for _, n := range fvs {
+		v := e.vars[n]
+		pc := g.s.decl("exq."+sanitize(n), v.So)
+		probes[n] = CV{pc, v.Ty}
+		argSorts = append(argSorts, v.So)
+		argTerms = append(argTerms, v.S)
+	}
+	canon := strings.ReplaceAll(bodyAt(probe.S, probes), probe.S, "?")
+	for _, n := range fvs {
+		canon = strings.ReplaceAll(canon, probes[n].S, "?"+n)
+	}
 	id := g.exIDs[canon]
 	if id == "" {
 		id = fmt.Sprintf("ex.%d", len(g.exIDs))
 		g.exIDs[canon] = id
-		g.s.lines = append(g.s.lines, "(declare-fun "+id+" (Int) Bool)")
+		g.s.lines = append(g.s.lines, "(declare-fun "+id+" ("+strings.Join(append([]string{"Int"}, argSorts...), " ")+") Bool)")
 	}
+	exAt := func(m string) string { return app(id, append([]string{m}, argTerms...)...) }
+	argKey := strings.Join(argTerms, ",")
 	// witness rule: 0 <= j < N && P(j) ==> ex(N), instantiated lazily like an assumed forall
-	wkey := id + "|wit|" + n.S
+	wkey := id + "|wit|" + n.S + "|" + argKey
+	if g.memSeen[wkey] {
+		g.s.hit(wkey)
+	}
 	if !g.memSeen[wkey] && !e.noReg {
 		g.memSeen[wkey] = true
+		wstart := len(g.s.lines)
+		defer func() { g.s.rec(wkey, wstart) }()
 		nS := n.S
 		ff := &forallFact{sort: "Int", guard: "true", outer: "true", inst: func(t string) string {
-			return imp(and("(<= 0 "+t+")", "(< "+t+" "+nS+")", body(t)), app(id, nS))
+			return imp(and("(<= 0 "+t+")", "(< "+t+" "+nS+")", body(t)), exAt(nS))
 		}}
 		g.foralls = append(g.foralls, ff)
 		for _, t := range append([]string{}, g.instTerms["Int"]...) {
@@ -1094,16 +1154,36 @@ func (e *Env) boundedExists(x *CE, pos bool) (CV, bool) {
 	}
 	cur := n.S
 	for d := 0; d < 2; d++ {
-		key := id + "|" + cur
+		key := id + "|" + cur + "|" + argKey
+		prev := "(- " + cur + " 1)"
 		if g.memSeen[key] {
-			break
+			g.s.hit(key)
+			cur = prev
+			continue
 		}
 		g.memSeen[key] = true
-		prev := "(- " + cur + " 1)"
-		g.s.assume(eq(app(id, cur), and("(> "+cur+" 0)", or(app(id, prev), body(prev)))))
+		ustart := len(g.s.lines)
+		g.s.assume(eq(exAt(cur), and("(> "+cur+" 0)", or(exAt(prev), body(prev)))))
+		g.s.rec(key, ustart)
 		cur = prev
 	}
-	return g.cv(app(id, n.S), "Bool", nil), true
+	// where the formula may be assumed, an existential also yields a witness: a fresh skolem w
+	// with ex(N) ==> 0 <= w < N && P(w); w joins the instantiation terms, so that the witness rules
+	// of the same statement over other (frame-equal) heap versions fire at it
+	if e.hyp == pos && !e.noReg {
+		skey := id + "|sk|" + n.S + "|" + argKey
+		if g.memSeen[skey] {
+			g.s.hit(skey)
+		} else {
+			g.memSeen[skey] = true
+			sstart := len(g.s.lines)
+			w := g.s.decl("exw", "Int")
+			g.s.assume(imp(exAt(n.S), and("(<= 0 "+w.S+")", "(< "+w.S+" "+n.S+")", body(w.S))))
+			g.addInstTerm("Int", w.S)
+			g.s.rec(skey, sstart)
+		}
+	}
+	return g.cv(exAt(n.S), "Bool", nil), true
 }
 
 // methodCall: recv.m(args) in a contract — a method declared pure is evaluated in place.
